@@ -168,10 +168,22 @@ class C25(core.Check):
     design_ref = "DESIGN.md §5 C25"
     technique = ("Lean 4 theorems over an executable model of Box.pile / Boxer.exen / Boxer.run / Boxer.end + "
                  "differential run of the compiled model against real boxworks built with Boxer.make + independent event-log oracle")
-    level_text = "TODO"
-    level_note = "TODO"
-    quick_n = 400
-    thorough_n = 12000
+    level_text = ("Lean theorems for EVERY boxwork (any number of boxes, any shape; wf = what Boxer.bx guarantees, proved of every declarable "
+                  "boxwork in declared_boxworks_are_wf), every tick, every active box, every number of sends (unbounded; induction over the run in "
+                  "run_records_are_passes, so every transition sequence): exen_total (exen's loop always returns), exen_splits_piles, fork_separates_piles, pile_is_chain, "
+                  "transition_trace / exit_bottom_up_enter_top_down / retained_rexit_then_reenter (accepted transition: left boxes exited bottom-up, "
+                  "kept re-exited bottom-up then re-entered top-down, arrived entered top-down, in that phase order, computed from the ACTIVE pile), "
+                  "failed_predo_no_actions + failed_attempt_is_skipped (no accepted transition => no exit/entry action at all), "
+                  "end_exits_active_once_bottom_up + ended_pass_ends, acts_in_declaration_order (whole rounds 0..n-1 of each act list), first_entry_top_down. "
+                  "All unconditional on the fixed tree (4 fix: commits on fix/box); no _partial theorems. The model is tied to the code by a seeded "
+                  "differential run of the compiled model against real Boxer.make/run (exhaustive single transitions on all forests <= 5 boxes in thorough) "
+                  "and by translator-regenerated statement tables (gen_* theorems: unpack order, exen argument, phase call order, end reversal).")
+    level_note = ("Trusted: Lean kernel + propext/Classical.choice/Quot.sound; the AST translator harness/extract/box.py; that the sampled correspondence is "
+                  "representative (box identity = declaration index, acts opaque and non-raising, need/preact truth scripted per tick); "
+                  "'boxes left / kept / arrived' are exen's split of the two piles at the first difference or at the destination (forced re-entry), "
+                  "as the exen docstring defines them; fork_separates_piles proves that outside forced re-entry nothing below the fork is shared.")
+    quick_n = 2000
+    thorough_n = 40000
     rule = ("cases: ordered forest of <= 7 boxes (any declaration order), 0-3 recording acts in each of the 8 action nabes of every box, "
             "preacts and goacts whose truth at each tick is a bit mask, optional first box, 1-10 ticks, optional end tick. "
             "Three generators: scripted walks (one chosen transition per pass, 25% with a failing entry precondition), chaotic masks "
